@@ -125,6 +125,7 @@ type pkt struct {
 	relayerOnDst *accountRef
 	agent        *sendInfo
 	nested       bool
+	refundTo     common.Address
 }
 
 type accountRef struct{ eth common.Address }
